@@ -241,7 +241,11 @@ class Program:
                 prog_cmd.op, "dagger", False
             )
 
-            if not all((names_eq, param_eq, modes_eq, dagger_eq)):
+            options_eq = pu.measurement_options(self_cmd.op) == pu.measurement_options(
+                prog_cmd.op
+            )
+
+            if not all((names_eq, param_eq, modes_eq, dagger_eq, options_eq)):
                 return False
 
         return True
